@@ -131,7 +131,7 @@ def _blocks_of(node):
             yield c.body
 
 
-_PURE_CALLS_ = None
+_PURE_DOTTED = {"os.path.join", "os.path.basename", "os.path.dirname", "os.path.splitext", "os.path.normpath", "os.path.abspath", "os.fspath"}
 _PURE_CALLS = {"isinstance", "issubclass", "len", "hasattr", "getattr", "type", "callable", "bool", "int", "float", "str",
                "tuple", "frozenset", "min", "max", "abs", "id", "repr"}
 
@@ -139,7 +139,7 @@ _PURE_CALLS = {"isinstance", "issubclass", "len", "hasattr", "getattr", "type", 
 def is_pure(e):
     for n in ast.walk(e):
         if isinstance(n, ast.Call):
-            if not (isinstance(n.func, ast.Name) and n.func.id in _PURE_CALLS):
+            if not ((isinstance(n.func, ast.Name) and n.func.id in _PURE_CALLS) or _chain(n.func) in _PURE_DOTTED):
                 return False
         elif isinstance(n, (ast.Await, ast.Yield, ast.YieldFrom, ast.NamedExpr, ast.ListComp, ast.SetComp,
                             ast.DictComp, ast.GeneratorExp, ast.Starred, ast.List, ast.Dict, ast.Set)):
@@ -992,8 +992,6 @@ def orient_tests(fn, ref_tests):
                     break
                 rest = blk[i + 1:]
                 if _terminates(st.body) and rest:
-                    if any(isinstance(r, FUNC + (ast.ClassDef,)) for r in rest):
-                        continue
                     B = st.body
                     st.test, st.body, st.orelse = T, rest, B
                     del blk[i + 1:]
